@@ -383,6 +383,10 @@ def run(chk):
     quick = chk.tier == 'quick'
     ops, problems = regenerate(chk)
     r = chk.prove()
+    for ax in sorted(set(re.findall(r'^((?:ClassicalDedekindReals|FunctionalExtensionality|Classical_Prop)\.\w+)', r['log'], re.M))):
+        t = 'axiom (Print Assumptions): ' + ax     # multi-line axiom types are not caught by vlib's parser
+        if t not in chk.cov['trusted_base']:
+            chk.cov['trusted_base'].append(t)
     exe, oracle = build(chk)
     infos = G.opcode_infos(oracle.ask, ops)
     chk.cov['trusted_base'] += ['translators tools/tr_c02_*.py (C subset parser + symbolic execution); unknown syntax => SUnknown row => theorem fails',
